@@ -8,6 +8,10 @@ Definition QcO : ops Qc :=
   mkops Qc (Q2Qc 0) (Q2Qc 1) Qcplus Qcminus Qcmult Qcdiv Qcopp (fun a b => Qle_bool (this a) (this b)).
 Definition q (n : Z) (d : positive) : Qc := Q2Qc (n # d).
 Arguments q n%Z d%positive.
+(* a vector of dyadic rationals n1/2^k, n2/2^k, n3/2^k (every binary64 value is one) *)
+Definition D (n1 n2 n3 : Z) (k : N) : vec Qc :=
+  let d := Pos.pow 2 (N.succ_pos k) in (q (2 * n1) d, q (2 * n2) d, q (2 * n3) d).
+Arguments D (n1 n2 n3)%Z k%N.
 
 (* |a - b| <= 1e-9 (1 + |b|), exact rational arithmetic *)
 Definition qclose (a b : Qc) : bool :=
@@ -21,7 +25,7 @@ Definition zll_eqb := list_eqb zl_eqb.
    canonical buffer classes of all slots, and the elements/class of a newly created object *)
 Record obs := mkobs {
   o_changed : list (nat * list (vec Qc));
-  o_cls : list Z;
+  o_cls : option (list Z);        (* None: the same classes as after the previous step *)
   o_new : option (list (list Z) * list (list Z) * list (list Z) * Z) }.
 
 Fixpoint patch (snap : list (list (vec Qc))) (ch : list (nat * list (vec Qc))) : list (list (vec Qc)) :=
@@ -50,7 +54,7 @@ Definition agree_new (w : world (T:=Qc)) (n : option (list (list Z) * list (list
       end
   end.
 
-Fixpoint check_from (w : world (T:=Qc)) (snap : list (list (vec Qc))) (h : list (op (T:=Qc) * obs)) : bool :=
+Fixpoint check_from (w : world (T:=Qc)) (snap : list (list (vec Qc))) (cls : list Z) (h : list (op (T:=Qc) * obs)) : bool :=
   match h with
   | [] => true
   | (o, ob) :: t =>
@@ -58,8 +62,9 @@ Fixpoint check_from (w : world (T:=Qc)) (snap : list (list (vec Qc))) (h : list 
       | None => false
       | Some w' =>
           let snap' := patch snap (o_changed ob) in
-          agree_coords w' snap' && zl_eqb (classes w') (o_cls ob) && agree_new w' (o_new ob) && check_from w' snap' t
+          let cls' := match o_cls ob with Some c => c | None => cls end in
+          agree_coords w' snap' && zl_eqb (classes w') cls' && agree_new w' (o_new ob) && check_from w' snap' cls' t
       end
   end.
 
-Definition check_case (h : list (op (T:=Qc) * obs)) : bool := check_from (w0 (T:=Qc)) [] h.
+Definition check_case (h : list (op (T:=Qc) * obs)) : bool := check_from (w0 (T:=Qc)) [] [] h.
